@@ -157,6 +157,12 @@ func upOpts() *config.ServerOptions {
 // the pong, let the pending poll return (the server's noop) without polling again, send upgrade.
 // It returns the candidate and whether the script got as far as sending the upgrade packet.
 func conformantUpgrade(w *World, s *sess, kind string, pollLoop func(stop func() bool), late time.Duration) (*candidate, bool) {
+	return conformantUpgradeDelayed(w, s, kind, pollLoop, late, 0)
+}
+
+// conformantUpgradeDelayed: upDelay is the time the client's upgrade packet takes to arrive after its
+// last poll has come back (computation is instantaneous in virtual time, a network is not).
+func conformantUpgradeDelayed(w *World, s *sess, kind string, pollLoop func(stop func() bool), late, upDelay time.Duration) (*candidate, bool) {
 	c := dialCandidate(w, kind, s.pc.Sid)
 	if !c.waitOpen() {
 		return c, false
@@ -179,6 +185,9 @@ func conformantUpgrade(w *World, s *sess, kind string, pollLoop func(stop func()
 	paused = true // stop polling once the current poll has returned
 	if s.pending != nil {
 		s.pending.Wait()
+	}
+	if upDelay > 0 {
+		vsched.Sleep(upDelay)
 	}
 	c.send(Pkt{Type: '5'})
 	return c, true
@@ -280,7 +289,7 @@ func upBodyInner(u upCase, oracle string) vsched.Body {
 			polled = append(polled, s.pending)
 		}
 		switch {
-		case u.word == "C" || u.word == "L":
+		case u.word == "C" || u.word == "L" || u.word == "S":
 			vsched.GoNamed("client", func() {
 				w.BeginAction()
 				var pl func(func() bool)
@@ -291,7 +300,11 @@ func upBodyInner(u upCase, oracle string) vsched.Body {
 				if u.word == "L" {
 					late = 150 * time.Millisecond
 				}
-				c, ok := conformantUpgrade(w, s, u.cand, pl, late)
+				upDelay := time.Duration(0)
+				if u.word == "S" {
+					upDelay = 100 * time.Millisecond // the upgrade packet arrives 100ms after the released poll came back
+				}
+				c, ok := conformantUpgradeDelayed(w, s, u.cand, pl, late, upDelay)
 				cands = append(cands, c)
 				sentUpgrade = ok
 				scriptDone = true
@@ -522,7 +535,7 @@ func upBodyInner(u upCase, oracle string) vsched.Body {
 			x.Fail("switch-without-upgrade-packet%s: the transport changed although no upgrade packet was sent on a candidate (%s)", fp, id)
 		}
 		exp := "switch"
-		if u.word != "C" && u.word != "L" {
+		if u.word != "C" && u.word != "L" && u.word != "S" {
 			exp = upExpect(u.word)
 		}
 		if u.context == "close" || u.context == "close-late-upgrade" || u.context == "close-false" {
@@ -827,6 +840,9 @@ func init() {
 			regs = append(regs, reg{"C01", upCase{cand, true, word, "send"}}, reg{"C18", upCase{cand, true, word, "send-cb"}}, reg{"C12", upCase{cand, true, word, "close-false"}})
 			regs = append(regs, reg{"C01", upCase{cand, true, word, "send+slowflush"}}, reg{"C18", upCase{cand, true, word, "send-cb+slowflush"}}, reg{"C08", upCase{cand, true, word, "send+slowflush"}})
 		}
+		// a client whose upgrade packet takes 100ms to arrive: the slow flush resumes while the old transport is
+		// still current and its poll has been released by the check tick
+		regs = append(regs, reg{"C01", upCase{cand, true, "S", "send+slowflush"}}, reg{"C18", upCase{cand, true, "S", "send-cb+slowflush"}})
 		regs = append(regs, reg{"C12", upCase{cand, false, "PU", "close-false"}}, reg{"C08", upCase{cand, true, "C", "close-false"}}, reg{"C08", upCase{cand, true, "L", "close-false"}}, reg{"C08", upCase{cand, true, "C", "send-cb"}})
 	}
 	for _, r := range regs {
